@@ -159,6 +159,49 @@ def opsC19 : Handler := fun st fields =>
         some (st, s!"called\t{boolStr r.called}\t{o}")
       | none => some (st, "bad-args")
     | _, _ => some (st, "bad-args")
+  -- a history of calls on one `accepts`-decorated function: calls separated by `#`, each `pos@kw`
+  | ["c19.accepts_seq", au, vn, calls] =>
+    match parseNamedDims au with
+    | some au =>
+      let varnames := if vn == "" then [] else vn.splitOn ","
+      let parsed : Option (List Call) := (calls.splitOn "#").mapM fun c =>
+        match c.splitOn "@" with
+        | [pos, kw] => do
+          let pos ← parseValList pos
+          let kw ← parseNamedVals kw pos.length
+          some ⟨pos, kw⟩
+        | _ => none
+      match parsed with
+      | some cs =>
+        let rs := acceptsHistory au varnames (fun _ => (.ok () : Except Err Unit)) cs
+        let outs := rs.map fun r => match r.out with | .ok _ => "through" | .error e => e.str
+        some (st, "seq\t" ++ String.join (rs.map fun r => boolStr r.called) ++ "\t" ++ ",".intercalate outs)
+      | none => some (st, "bad-args")
+    | none => some (st, "bad-args")
+  -- a history of calls on one `returns`-decorated function: results separated by `#`, each `S|T:vals`
+  | ["c19.returns_seq", ds, results] =>
+    match parseDimList ds with
+    | some dims =>
+      let parsed : Option (List PyResult) := (results.splitOn "#").mapM fun r =>
+        match r.splitOn ":" with
+        | ["S", v] => do
+          let vs ← parseValList v
+          match vs with | [x] => some (.single x) | _ => none
+        | ["T", v] => (parseValList v).map .tuple
+        | _ => none
+      match parsed with
+      | some rs =>
+        -- the i-th call returns the i-th result: the call carries its index as a positional id
+        let f : Call → Except Err PyResult := fun c =>
+          match c.pos with
+          | [v] => match rs[v.id]? with | some r => .ok r | none => .error .Other
+          | _ => .error .Other
+        let calls : List Call := (List.range rs.length).map fun i => ⟨[⟨i, none⟩], []⟩
+        let out := returnsHistory dims f calls
+        let outs := out.map fun r => match r.out with | .ok _ => "ok" | .error e => e.str
+        some (st, "seq\t" ++ String.join (out.map fun r => boolStr r.called) ++ "\t" ++ ",".intercalate outs)
+      | none => some (st, "bad-args")
+    | none => some (st, "bad-args")
   | ["c19.returns", ds, ru, kind, vals] =>
     match parseDimList ds, (if ru == "-" then some none else (Dim.parse ru).map some), parseValList vals with
     | some ds, some ru, some vals =>
